@@ -8,6 +8,8 @@
         device, e.g. after an operation this model does not cover) -> "ok <digest>"
    "create <name> <y> <m> <d> <h> <mi> <s> <ms>"   vol_create_empty_file_root
         -> "ok <first> <last> | exists | err <Variant> | panic | fuel", then " <digest>"
+        create / remove / rename run MOUNTED (Model/VolStatus.v): vol_mount_status ; vols_* (the operation, then set_dirty_flag(true)
+        exactly when the code passes it) ; vol_unmount; the answer ends with "mark1" when the status byte was written, else "mark0"
    "remove <name>"                          vol_remove_empty_file_root -> "ok | err <Variant> | ... <digest>" | "na"
    "rename <src> <dst>"                     vol_rename_in_root         -> "ok | err <Variant> | ... <digest>" | "na"
         "na": the model answers None (the entry is a directory / owns clusters: the library touches more than the root
@@ -42,6 +44,8 @@ let res_tag (tag : 'a -> string) (r : 'a Base.res) : string =
   | Base.Panic -> "panic"
   | Base.OutOfFuel -> "fuel"
 
+let mark_s (s1 : Flags.fstat) : string = if int_of_n s1.Flags.status_writes > 0 then " mark1" else " mark0"
+
 let line (t : string list) : string =
   match t with
   | ["upper"; f] -> Printf.sprintf "ok %d" (M_c15.load_table f)
@@ -70,19 +74,31 @@ let line (t : string list) : string =
     cur := !im; stale := false;
     "ok " ^ digest ()
   | ["create"; name; y; m; d; h; mi; s; ms] ->
-    let (r, im) = VolDir.vol_create_empty_file_root upper oem !cur (name_of_hex name) (M_c18.mkdt y m d h mi s ms) in
-    cur := im;
+    (* mounted (Model/VolStatus.v): mount ; the operation with its status write ; unmount.  "mark<0|1>": the status byte was written *)
+    let g = Abs.parse_geom !cur in
+    let s0 = VolStatus.vol_mount_status g !cur in
+    let ((r, im), s1) = VolStatus.vols_create_empty_file_root upper oem !cur s0 (name_of_hex name) (M_c18.mkdt y m d h mi s ms) in
+    let (im', _) = VolStatus.vol_unmount g im s1 in
+    cur := im';
     pre (res_tag (fun o -> match o with
                            | None -> "exists"
-                           | Some (p, q) -> Printf.sprintf "ok %s %s" (string_of_n p) (string_of_n q)) r ^ " " ^ digest ())
+                           | Some (p, q) -> Printf.sprintf "ok %s %s" (string_of_n p) (string_of_n q)) r ^ " " ^ digest () ^ mark_s s1)
   | ["remove"; name] ->
-    (match VolDir.vol_remove_empty_file_root upper oem !cur (name_of_hex name) with
+    let g = Abs.parse_geom !cur in
+    let s0 = VolStatus.vol_mount_status g !cur in
+    (match VolStatus.vols_remove_empty_file_root upper oem !cur s0 (name_of_hex name) with
      | None -> stale := true; "na"
-     | Some (r, im) -> cur := im; pre (res_tag (fun _ -> "ok") r ^ " " ^ digest ()))
+     | Some ((r, im), s1) ->
+       let (im', _) = VolStatus.vol_unmount g im s1 in
+       cur := im'; pre (res_tag (fun _ -> "ok") r ^ " " ^ digest () ^ mark_s s1))
   | ["rename"; src; dst] ->
-    (match VolDir.vol_rename_in_root upper oem !cur (name_of_hex src) (name_of_hex dst) with
+    let g = Abs.parse_geom !cur in
+    let s0 = VolStatus.vol_mount_status g !cur in
+    (match VolStatus.vols_rename_in_root upper oem !cur s0 (name_of_hex src) (name_of_hex dst) with
      | None -> stale := true; "na"
-     | Some (r, im) -> cur := im; pre (res_tag (fun _ -> "ok") r ^ " " ^ digest ()))
+     | Some ((r, im), s1) ->
+       let (im', _) = VolStatus.vol_unmount g im s1 in
+       cur := im'; pre (res_tag (fun _ -> "ok") r ^ " " ^ digest () ^ mark_s s1))
   | ["root"] ->
     let v = Abs.abs !cur in
     let g = v.Abs.v_geom in
